@@ -44,6 +44,10 @@ def run(ck: Checker):
     ck.rule('C17-4', 'configuration travels with the object: every attribute set by __init__ of ResponsiveQueue / IterableQueue is carried by __getstate__ and restored by __setstate__ in the same order (AGREE)', minimum=2)
     check_pickle_state(ck, 'C17-4', mod.cls('ResponsiveQueue'))
     check_pickle_state(ck, 'C17-4', cls)
+    ck.rule('C17-5', 'timeouts of put/get reach the underlying queue operation as given (0 = do not wait is legal): re-bound only under `is None`, never replaced through truthiness (GUARD)', minimum=3)
+    from .common import check_timeout_passthrough
+
+    check_timeout_passthrough(ck, 'C17-5', [m for c in (mod.cls('ResponsiveQueue'), cls) for m in c.methods()])
     # ------------------------------------------------------------------ C17-1
     f = cls.method('__next__')
     sc = Scope(f)
